@@ -15,6 +15,8 @@ var Registry = map[string]func() int{
 	"C11": C11,
 	"C06": C06,
 	"C07": C07,
+	"C08": C08,
+	"C12": C12,
 }
 
 func IDs() []string {
